@@ -101,7 +101,7 @@ func main() {
 	for _, h := range strings.Split(*harness, ",") {
 		cfg := interp.Config{Harness: h, Setup: *setup, Workers: *workers, StepBudget: *budget, MaxPaths: *maxPaths,
 			WallLimit: *wall, Solver: *solver, SymbolicMapOrder: *mapOrder, MaxPreemptions: *preempt, MaxThreads: *threads,
-			Params: pm, Trace: *trace, MaxDepth: *maxDepth, StopOnViolation: *stopOnViol, NoFD: *noFD, CrossCheckFD: *crossFD, Fallback: []string{"z3-new", "cvc5"}, HangIsViolation: *hangViol}
+			Params: pm, Trace: *trace, MaxDepth: *maxDepth, StopOnViolation: *stopOnViol, NoFD: *noFD, CrossCheckFD: *crossFD, Fallback: []string{"z3-new", "cvc5"}, HangIsViolation: *hangViol, ProbeHot: flagSet(fs, "preemptions")}
 		res, err := interp.Explore(prog, cfg)
 		if err != nil {
 			fatal(err)
@@ -109,6 +109,7 @@ func main() {
 		all[h] = res
 		fmt.Fprintf(os.Stderr, "%s: paths=%d outcomes=%v decisions=%d queries(unsat/sat/unknown)=%v solver=%.1fs wall=%.1fs violations=%d exhaustive=%v\n",
 			h, res.Stats.Paths, res.Outcomes, res.Stats.Decisions, fmt.Sprint(res.Queries, " unknown(feas/assert)=", res.Stats.UnknownFeasibility, res.Stats.UnknownAssert, " fd(sat/unsat/xchk/mismatch)=", res.Stats.FDSat, res.Stats.FDUnsat, res.Stats.FDCrossChecked, res.Stats.FDMismatch), res.SolverTime.Seconds(), res.Wall.Seconds(), len(res.Violations), res.Exhaustive)
+		interp.DumpSchedStat()
 		for k, v := range res.Inconclusive {
 			fmt.Fprintf(os.Stderr, "  inconclusive %dx %s\n", v, k)
 		}
@@ -127,4 +128,15 @@ func main() {
 func fatal(err error) {
 	fmt.Fprintln(os.Stderr, "symgo:", err)
 	os.Exit(2)
+}
+
+// flagSet reports whether the flag was given explicitly.
+func flagSet(fs *flag.FlagSet, name string) bool {
+	set := false
+	fs.Visit(func(f *flag.Flag) {
+		if f.Name == name {
+			set = true
+		}
+	})
+	return set
 }
